@@ -211,6 +211,11 @@ def classify(rec):
         return ("after-bad@" + short_sig(rec.get("sig")),
                 "k=%s via=%s after=%s" % (rec.get("k"), rec.get("via"), rec.get("after")))
     sig = rec.get("sig")
+    if oc == "swallowed" and rec.get("out") == "same" and rec.get("after") == "ok":
+        # the refused allocation was optional (a cache that could not grow, a reset-for-reuse inside a destructor):
+        # every API call succeeded, the result is identical to the run without injection, the manager is balanced
+        # and a new transformer works: nothing to surface
+        return "ok", "absorbed"
     if oc == "swallowed":
         # the API reported success although an allocation was refused; out=diff: the result differs from
         # the run without injection (e.g. document() catches everything and goes on with an empty node-set)
